@@ -162,6 +162,9 @@ type world struct {
 	npath int
 	g     *gen
 	rt    *countRT
+	// sink, if set, receives the protocol lines instead of the run (the
+	// controlled schedules write theirs at the end of the scenario)
+	sink func(op, out string)
 	// handles of realized layers that can still be consumed, by realize id
 	handles map[int][]*handle
 }
@@ -478,7 +481,11 @@ func (w *world) layerLine(l *layer, uri string) {
 	ct := fin.Header.Get("Content-Type")
 	line := fmt.Sprintf("layer %s %s %s %s %s %d %s %s %s %s %s %s %s", l.api, hx.Hex([]byte(l.digest)), uriFlag, hx.Hex([]byte(l.mediaType)),
 		b01(refused), statusOf(fin), hx.Hex([]byte(ct)), term, hx.Hex(delivered), hx.Hex(sum), z, tarFlag, disk)
-	w.r.Op(line, "queued", true)
+	if w.sink != nil {
+		w.sink(line, "queued")
+	} else {
+		w.r.Op(line, "queued", true)
+	}
 	w.r.Count("comp:" + l.comp)
 	w.r.Count("damage:" + l.damage)
 	w.r.Count("term:" + term.String())
@@ -844,6 +851,18 @@ func Run(cfg hx.Config) error {
 	nhist := cfg.N(250, 4000)
 	for i := 0; i < nhist && !r.Stop(); i++ {
 		history(g, next(tr, false))
+	}
+
+	// 5b. concurrent users of one arena under controlled schedules
+	nsched := cfg.N(300, 5000)
+	for i := 0; i < nsched && !r.Stop(); i++ {
+		schedScenario(g, next(tr, false), tr)
+	}
+	r.Notes["scheduled_scenarios"] = nsched
+
+	// 5c. CheckResponse, Digest texts and Scan, detectCompression on short slices
+	if !r.Stop() {
+		miscOps(r, g)
 	}
 
 	// 6. the same through a loopback HTTP server (real net/http transport)
